@@ -579,3 +579,67 @@ def object_truthiness(check: Check, repo: Repo, modules: list[str], rule: str = 
                              f"{cname} defines neither __bool__ nor __len__: truthiness == presence" if not sized else
                              f"{', '.join(sized)} makes an existing {cname} falsy: the presence test also rejects it")
     check.note(presence_tests=n)
+
+
+# -- round 5 ------------------------------------------------------------------------------------------------
+
+_TEXT_REWRITERS = {"strip", "rstrip", "lstrip", "replace", "expandtabs", "translate", "lower", "upper", "casefold", "title", "capitalize", "swapcase", "removeprefix", "removesuffix"}
+
+
+def excerpt_verbatim(check: Check, repo: Repo, rule: str = "EXCERPT-VERBATIM") -> None:
+    check.rule(
+        rule,
+        "the excerpt shown for a location is the source line itself: language/print_location.py pads and prefixes "
+        "(rjust, ljust, concatenation, slicing by position) but applies no str method that rewrites text - strip / "
+        "rstrip / lstrip / replace / expandtabs / translate / case mappings. `f'{prefix} {line}'.rstrip()` also removes "
+        "the trailing blank, tab, form feed or U+2028 that belongs to the line the location names, so the excerpt is not "
+        "that line any more (and a caret under such a column points past the end of what is shown)",
+    )
+    mod = repo.mod("language.print_location")
+    calls = [c for c in ast.walk(mod.tree) if isinstance(c, ast.Call) and isinstance(c.func, ast.Attribute) and c.func.attr in _TEXT_REWRITERS]
+    for c in calls:
+        check.ob(rule, c, f"{qualname_of(c)}: {unparse(c)[:60]}", False, f"str.{c.func.attr}() rewrites the text of the excerpt")
+    n = sum(1 for c in ast.walk(mod.tree) if isinstance(c, ast.Call))
+    check.ob(rule, mod.tree, f"print_location.py: {n} calls, none rewrites text", not calls, "only padding, slicing and concatenation" if not calls else "see above", nontrivial=False)
+    if n < 10:
+        raise AnalysisError("print_location.py: calls not found")
+
+
+OFFSET_READERS = {"language/source.py", "language/print_location.py"}
+
+
+def offset_owners(check: Check, repo: Repo, rule: str = "OFFSET-OWNERS") -> None:
+    check.rule(
+        rule,
+        "Source.location_offset says where the body sits in an enclosing file and is applied in exactly one place, the "
+        "rendering of a location (print_location.py); positions everywhere else - Token.line / Token.column, "
+        "Source.get_location, error.locations - are relative to the body. Only language/source.py (which stores and "
+        "validates it) and language/print_location.py read the attribute, and the lexer starts counting at line 1, "
+        "line start 0. A lexer that starts at the offset makes token positions disagree with get_location() of the same "
+        "token's start and with the locations of errors",
+    )
+    n = 0
+    for mod in repo.modules.values():
+        for a in ast.walk(mod.tree):
+            if isinstance(a, ast.Attribute) and a.attr == "location_offset" and isinstance(a.ctx, ast.Load):
+                n += 1
+                ok = any(mod.rel.endswith(r) for r in OFFSET_READERS)
+                check.ob(rule, a, f"{mod.rel.split('graphql/')[-1]}: reads `{unparse(a)}` in {qualname_of(a)}", ok,
+                         "an owner of the offset" if ok else "the offset leaks into body-relative positions")
+    init = repo.func("language.lexer", "Lexer.__init__")
+    vals = {}
+    for s in walk_body(init):
+        if isinstance(s, ast.Assign):
+            for t in s.targets:
+                tt = list(t.elts) if isinstance(t, ast.Tuple) else [t]
+                vv = list(s.value.elts) if isinstance(s.value, ast.Tuple) and isinstance(t, ast.Tuple) and len(s.value.elts) == len(tt) else [s.value] * len(tt)
+                for x, v in zip(tt, vv):
+                    if unparse(x) in ("self.line", "self.line_start"):
+                        vals[unparse(x)] = v
+    for name, want in (("self.line", 1), ("self.line_start", 0)):
+        v = vals.get(name)
+        ok = isinstance(v, ast.Constant) and v.value == want
+        check.ob(rule, v if v is not None else init, f"Lexer.__init__: {name} = {unparse(v) if v is not None else '?'}", ok,
+                 f"starts at {want}" if ok else f"expected the constant {want}: token positions are relative to the body")
+    if n < 2:
+        raise AnalysisError("OFFSET-OWNERS: reads of location_offset not found")
